@@ -293,9 +293,54 @@ func (s *Swarm) NumPeers() int {
 	return 0
 }
 
+// payload is what we hand over to the gossip library. The library queues the payloads per
+// connection, combines the queued ones using Merge() and expects to get the union of the
+// two back with both of them left intact. State.Merge() instead strips the other state
+// down to a delta and returns that delta (or nil), and the same state is handed over to
+// several connections, hence the state itself must never be queued.
+type payload struct {
+	state *event.State // The state (or the delta) to send.
+}
+
+// newPayload wraps the state for the gossip library, nil stays nil.
+func newPayload(data mesh.GossipData) mesh.GossipData {
+	if state, ok := data.(*event.State); ok && state != nil {
+		return &payload{state: state}
+	}
+	return nil
+}
+
+// Encode encodes the payload.
+func (p *payload) Encode() [][]byte {
+	return p.state.Encode()
+}
+
+// Merge returns the union of two queued payloads as a new payload, leaving both intact.
+func (p *payload) Merge(other mesh.GossipData) mesh.GossipData {
+	union, err := p.copy()
+	if err != nil {
+		logging.LogError("swarm", "merging payloads", err)
+		return other
+	}
+
+	added, err := other.(*payload).copy()
+	if err != nil {
+		logging.LogError("swarm", "merging payloads", err)
+		return p
+	}
+
+	union.Merge(added)
+	return &payload{state: union}
+}
+
+// copy creates a copy of the state, the way a remote peer would decode it.
+func (p *payload) copy() (*event.State, error) {
+	return event.DecodeState(p.state.Encode()[0])
+}
+
 // Gossip returns the state of everything we know; gets called periodically.
 func (s *Swarm) Gossip() (complete mesh.GossipData) {
-	return s.state
+	return newPayload(s.state)
 }
 
 // OnGossip merges received data into state and returns "everything new I've just
@@ -309,7 +354,7 @@ func (s *Swarm) OnGossip(buf []byte) (delta mesh.GossipData, err error) {
 	if delta, err = s.merge(buf); err != nil {
 		logging.LogError("merge", "merging", err)
 	}
-	return
+	return newPayload(delta), err
 }
 
 // OnGossipBroadcast merges received data into state and returns a representation
@@ -324,7 +369,7 @@ func (s *Swarm) OnGossipBroadcast(src mesh.PeerName, buf []byte) (delta mesh.Gos
 	if delta, err = s.merge(buf); err != nil {
 		logging.LogError("merge", "merging", err)
 	}
-	return
+	return newPayload(delta), err
 }
 
 // OnGossipUnicast occurs when the gossip unicast is received. In emitter this is
@@ -382,7 +427,7 @@ func (s *Swarm) Notify(ev event.Event, enabled bool) {
 	}
 
 	// Broadcasting just this operation
-	s.gossip.GossipBroadcast(op)
+	s.gossip.GossipBroadcast(newPayload(op))
 }
 
 // Contains checks whether an event is currently triggered within the cluster.
